@@ -270,6 +270,12 @@ LIB = {
         ("catch-rethrow-finally", "(() => { let l = ''; try { try { throw 1; } catch (e) { l += 'c'; throw 2; } finally { l += 'f'; } } catch (e) { l += e; } return l; })()"), ("label-break-block-scope", "(() => { let x = 1; L: for (;;) { { let x = 2; break L; } } return x; })()"),
         ("label-continue-scope", "(() => { let x = 1; let n = 0; L: for (let i = 0; i < 2; i++) { { let x = 2; n++; continue L; } } return [x, n]; })()"), ("switch-fallthrough", "(() => { let r = ''; switch (1) { case 0: r += 'a'; case 1: r += 'b'; case 2: r += 'c'; break; default: r += 'd'; } return r; })()"),
         ("switch-default-middle", "(() => { let r = ''; switch (9) { case 0: r += 'a'; default: r += 'd'; case 2: r += 'c'; } return r; })()"), ("switch-strict", "(() => { switch ('1') { case 1: return 'num'; default: return 'none'; } })()"), ("switch-scope", "(() => { switch (1) { case 1: { let y = 2; return y; } } })()"),
+        ("generator-return-runs-finally", "(() => { const l = []; function* g() { try { yield 1; yield 2; } finally { l.push('fin'); } } const it = g(); it.next(); const r = it.return(7); return [l, r.value, r.done]; })()"),
+        ("for-of-break-closes-generator", "(() => { const l = []; function* g() { try { yield 1; yield 2; yield 3; } finally { l.push('fin'); } } for (const x of g()) { if (x === 2) break; } l.push('after'); return l; })()"),
+        ("for-of-return-closes-generator", "(() => { const l = []; function* g() { try { yield 1; yield 2; } finally { l.push('fin'); } } function f() { for (const x of g()) { return x; } } const r = f(); return [l, r]; })()"),
+        ("labeled-continue-closes-inner-iterator", "(() => { const l = []; const mk = n => ({[Symbol.iterator]() { let i = 0; return {next() { return i < 2 ? {value: i++, done: false} : {value: undefined, done: true}; }, return() { l.push('ret' + n); return {}; }}; }}); outer: for (const a of mk('O')) { for (const b of mk('I')) { continue outer; } } return l; })()"),
+        ("break-in-catch-finally-then-close", "(() => { const l = []; const it = {[Symbol.iterator]() { let i = 0; return {next() { return {value: i++, done: false}; }, return() { l.push('ret'); return {}; }}; }}; for (const a of it) { try { throw 1; } catch (e) { break; } finally { l.push('fin'); } } return l; })()"),
+        ("try-in-for-of-inner-break", "(() => { const l = []; for (const a of [1, 2]) { try { for (;;) { break; } throw a; } catch (e) { l.push('c' + e); } finally { l.push('f'); } } return l; })()"),
         ("for-in-array", "(() => { const r = []; for (const k in [7, 8]) r.push(typeof k + k); return r; })()"), ("for-of-break-closes", "(() => { let closed = false; const it = {[Symbol.iterator]() { return {next() { return {done: false, value: 1}; }, return() { closed = true; return {}; }}; }}; for (const x of it) break; return closed; })()"),
         ("for-of-destructure", "(() => { const r = []; for (const [a, {b}] of [[1, {b: 2}]]) r.push(a + b); return r; })()"), ("do-while", "(() => { let n = 0; do { n++; } while (n < 3); return n; })()"), ("while-continue-label", "(() => { let n = 0, i = 0; outer: while (i < 3) { i++; let j = 0; while (j < 3) { j++; if (j === 2) continue outer; n++; } } return n; })()"),
         ("comma-for", "(() => { let r = []; for (let i = 0, j = 5; i < j; i += 2, j--) r.push(i + j); return r; })()"), ("var-function-scope", "(() => { if (true) { var v = 1; } return v; })()"), ("let-block-scope", "(() => { let x = 1; { let x = 2; } return x; })()"),
